@@ -33,6 +33,7 @@ import Scc.Core.ProofsUniqueE
 import Scc.Core.ProofsFocusSigma
 import Scc.Core.ProofsEmbed
 import Scc.Core.ProofsBindSteps
+import Scc.Core.ProofsFocusSem
 
 namespace Scc.Core
 
@@ -194,6 +195,88 @@ theorem C03_bind_mu_by_name (q : FsProg) (st : FsState) (a : Ident) (ty : Ty) (s
 theorem C03_focused_no_sigma (x : Ident) (s : FsStmt) : sigmaStep x s.embed = none :=
   sigmaStep_embed x s
 
+/-! ## proved: static focusing ≈ the ς-machine (first sentence, the `focus` half) -/
+
+/-- behaviours that are equal up to the amount of fuel are observably equal -/
+theorem ObsEq.of_runs {r1 r2 : Nat → Behaviour} (h1 : ∀ f, ∃ f', r2 f' = r1 f)
+    (h2 : ∀ f', ∃ f, r1 f = r2 f') : ObsEq r1 r2 := by
+  refine ⟨fun b => ⟨?_, ?_⟩, fun f => ?_, fun f' => ?_⟩
+  · rintro ⟨f, hf, hb⟩
+    obtain ⟨f', hf'⟩ := h1 f
+    exact ⟨f', by rw [hf', hf], hb⟩
+  · rintro ⟨f', hf', hb⟩
+    obtain ⟨f, hf⟩ := h2 f'
+    exact ⟨f, by rw [hf, hf'], hb⟩
+  · obtain ⟨f', hf'⟩ := h1 f
+    exact ⟨f', by rw [hf']; exact List.prefix_refl _⟩
+  · obtain ⟨f, hf⟩ := h2 f'
+    exact ⟨f, by rw [hf]; exact List.prefix_refl _⟩
+
+theorem ObsEq.symm {r1 r2 : Nat → Behaviour} (h : ObsEq r1 r2) : ObsEq r2 r1 :=
+  ⟨fun b => (h.1 b).symm, h.2.2, h.2.1⟩
+
+theorem ObsEq.trans {r1 r2 r3 : Nat → Behaviour} (h : ObsEq r1 r2) (h' : ObsEq r2 r3) :
+    ObsEq r1 r3 := by
+  refine ⟨fun b => (h.1 b).trans (h'.1 b), fun f => ?_, fun f => ?_⟩
+  · obtain ⟨f1, h1⟩ := h.2.1 f
+    obtain ⟨f2, h2⟩ := h'.2.1 f1
+    exact ⟨f2, List.IsPrefix.trans h1 h2⟩
+  · obtain ⟨f1, h1⟩ := h'.2.2 f
+    obtain ⟨f2, h2⟩ := h.2.2 f1
+    exact ⟨f2, List.IsPrefix.trans h1 h2⟩
+
+/-- executable form of the hypotheses of `C03_focusOnly_sem`: in every definition body no cut of a
+    constructor/operator with a destructor (`cutsOk`: where Rust's `focus` panics), chirality flags
+    agree with positions (`pcOk`: Rust's `Term<Prd>`/`Term<Cns>`), no identifier is called `ς`, and
+    every identifier has an id `≤ maxId` (so that the names `focus` generates are fresh) -/
+def focusReady (p : Prog) : Bool :=
+  p.defs.all fun d => d.body.cutsOk && d.body.pcOk &&
+    d.body.idents.all (fun i => i.name != "ς") && d.body.idents.all (fun i => i.id ≤ p.maxId)
+
+theorem focusReady_input {p : Prog} (h : focusReady p = true) : FocusInput p p := by
+  simp only [focusReady, List.all_eq_true, Bool.and_eq_true, bne_iff_ne, decide_eq_true_eq] at h
+  refine ⟨rfl, DefsAlpha.refl _, fun d hd => ⟨(h d hd).1.1.1, (h d hd).1.1.2, ?_⟩, fun d hd => ?_⟩
+  · intro i hi hn; exact absurd hn ((h d hd).1.2 i hi)
+  · intro i hi hg; have := (h d hd).2 i hi; have := hg.2; omega
+
+/-- **C03, the `focus` half, for two α-equivalent programs.**  If the definitions of `p2` are
+    α-equivalent to those of `p1` (equal nameless forms; e.g. `p2 = p1`, or `p2 = uniquifyProg p1`),
+    `p1` is acceptable to `focus` and the ids of `p2` are `≤ p2.maxId`, then the ς-machine on `p1`
+    and the focused machine on the statically focused `p2` are observably equal — in fact they
+    produce EQUAL behaviours, the focused machine with at most as much fuel. -/
+theorem C03_focusOnly_sem_alpha (p1 p2 : Prog) (h : FocusInput p1 p2) (args : List (BitVec 64)) :
+    ObsEq (run p1 args) (fsRun (focusOnly p2) args) := by
+  obtain ⟨h1, h2⟩ := focusOnly_sim_run h args
+  exact ObsEq.of_runs (fun f => by obtain ⟨f', _, e⟩ := h1 f; exact ⟨f', e⟩) h2
+
+/-- **static focusing ≈ the ς-rules** (T4 for the second half of `Prog::focus`): for EVERY program
+    satisfying the executable check `focusReady` (no typing needed), all arguments, all fuel. -/
+theorem C03_focusOnly_sem (p : Prog) (h : focusReady p = true) (args : List (BitVec 64)) :
+    ObsEq (run p args) (fsRun (focusOnly p) args) :=
+  C03_focusOnly_sem_alpha p p (focusReady_input h) args
+
+/-- the fuel-precise form: equal behaviours, the focused machine never needs more fuel -/
+theorem C03_focusOnly_fuel (p : Prog) (h : focusReady p = true) (args : List (BitVec 64)) :
+    (∀ f, ∃ f', f' ≤ f ∧ fsRun (focusOnly p) args f' = run p args f) ∧
+    (∀ f', ∃ f, run p args f = fsRun (focusOnly p) args f') :=
+  focusOnly_sim_run (focusReady_input h) args
+
+/-- the ς-step does not change the focused form (up to α-equivalence = equality of nameless forms):
+    `focus ⟨t | μ~ς.S[ς]⟩ ≡α focus S[t]` -/
+theorem C03_sigma_focus (s : Stmt) (pc : PC) (t : Term) (S : Term → Stmt)
+    (hs : s.split = some (pc, t, S)) (hok : s.cutOkTop = true) (hpc : t.pcOk pc = true)
+    (y : Ident) (hy : y ∉ s.idents) (hyg : ∀ m, ¬ Gen m y) (n : Nat) (hf : FreshL n s.idents)
+    (sc : List Ident) :
+    dbS sc (focusStmt (sigmaCut pc t y (S (.var pc y t.ty))) n).1.embed =
+      dbS sc (focusStmt s n).1.embed :=
+  sigma_focus hs hok hpc hy hyg hf sc
+
+/-- focusing respects α-equivalence and does not depend on the name counter -/
+theorem C03_focus_cong (sc sc' : List Ident) (s s' : Stmt) (n n' : Nat)
+    (h : dbS sc s = dbS sc' s') (hf : FreshL n s.idents) (hf' : FreshL n' s'.idents) :
+    dbS sc (focusStmt s n).1.embed = dbS sc' (focusStmt s' n').1.embed :=
+  focusStmt_cong h hf hf'
+
 /-! ## non-vacuity -/
 
 /-- `def main() { ⟨(1 + 2) | μ~x. println_i64(x); exit x⟩ }`, all ids 0 -/
@@ -248,6 +331,10 @@ example : ∃ S, (Stmt.print true (.lit 5) (.exit (.lit 0) .i64)).split = some (
     (Stmt.print true (.lit 5) (.exit (.lit 0) .i64)).cutOkTop = true :=
   ⟨_, rfl, rfl⟩
 
+/-- `exProg` (an operator with literal operands in a cut, a `print`, an `exit`) satisfies the
+    hypothesis of `C03_focusOnly_sem` -/
+example : focusReady exProg = true := by decide
+
 end Scc.Props
 
 #print axioms Scc.Props.C03_unique_binders
@@ -259,3 +346,8 @@ end Scc.Props
 #print axioms Scc.Props.C03_machines_agree
 #print axioms Scc.Props.C03_bind_mu_once
 #print axioms Scc.Props.C03_bind_mu_by_name
+#print axioms Scc.Props.C03_focusOnly_sem_alpha
+#print axioms Scc.Props.C03_focusOnly_sem
+#print axioms Scc.Props.C03_focusOnly_fuel
+#print axioms Scc.Props.C03_sigma_focus
+#print axioms Scc.Props.C03_focus_cong
